@@ -43,7 +43,25 @@ class LoggedArray(np.ndarray):
         return super().__getitem__(key)
 
 
-def build(npts, forced, iota, start='v_parallel', seed=0, random_field=True):
+# a structured set-up: dz = 1, integer grid velocities (with dt = 1 the displacement is a whole number of cells wherever b_z = 1)
+ALIGNED_OVERRIDES = dict(zMin=0.0, zMax=8.0, vMax=9.0, vMin=-9.0)   # Greville points of the v space: -9 -8 -6 -3 0 3 6 8 9
+
+
+# profile constants that a parameter file / keyword overrides may give: every one of them different from its counterparts
+PROFILE_OVERRIDES = dict(CTi=1.1, kTi=0.07, deltaRTi=1.3, CTe=0.9, kTe=0.11, deltaRTe=2.1, kN0=0.06, deltaRN0=2.5, deltaR=3.3)
+
+
+def init_oracle(eta, c):
+    """closed form of the initial distribution function in physical order (r, theta, z, v), from the constants alone"""
+    r, th, z, v = [np.asarray(x, float) for x in eta]
+    n0 = c.CN0 * np.exp(-c.kN0 * c.deltaRN0 * np.tanh((r - c.rp) / c.deltaRN0))
+    Ti = c.CTi * np.exp(-c.kTi * c.deltaRTi * np.tanh((r - c.rp) / c.deltaRTi))
+    feq = n0[:, None] * np.exp(-0.5 * v[None, :] ** 2 / Ti[:, None]) / np.sqrt(2 * np.pi * Ti[:, None])
+    pert = np.exp(-(r - c.rp) ** 2 / c.deltaR)[:, None, None] * np.cos(c.m * th[None, :, None] + c.n * z[None, None, :] / c.R0)
+    return feq[:, None, None, :] * (1 + c.eps * pert[:, :, :, None])
+
+
+def build(npts, forced, iota, start='v_parallel', seed=0, random_field=True, overrides=None):
     """inside a rank: the objects the driver builds (grid, phi, rho, operators), on a forced process grid"""
     import pygyro.initialisation.setups as setups
     from pygyro.advection.advection import FluxSurfaceAdvection, VParallelAdvection, PoloidalAdvection, ParallelGradient
@@ -53,7 +71,7 @@ def build(npts, forced, iota, start='v_parallel', seed=0, random_field=True):
     setups.compute_2d_process_grid = lambda n, size: tuple(forced)
     comm = MPI.COMM_WORLD
     f, constants, t = setups.setupCylindricalGrid(layout=start, npts=list(npts), comm=comm, iotaVal=iota, eps=0.05, m=2, n=1,
-                                                  allocateSaveMemory=True, dt=2)
+                                                  allocateSaveMemory=True, dt=2, **(overrides or {}))
     if random_field:
         L = f.getLayout(start)
         full = np.random.default_rng(seed).normal(size=[npts[d] for d in L.dims_order]) * 0.1 + 1.0
@@ -277,10 +295,11 @@ class OperatorsShareState(Exception):
 
 
 def op_body(npts, forced, iota, which, start):
-    o = build(npts, forced, iota, start=start, seed=3, random_field=(which != 'init'))
+    o = build(npts, forced, iota, start=start, seed=3, random_field=(which not in ('init', 'init_prof')),
+              overrides=PROFILE_OVERRIDES if which == 'init_prof' else ALIGNED_OVERRIDES if which == 'flux_partly_aligned' else None)
     f, phi, rho = o['f'], o['phi'], o['rho']
-    if which == 'init':
-        return {'f': block(f)}
+    if which in ('init', 'init_prof'):
+        return {'f': block(f), 'oracle': (tuple([0] * 4), tuple(npts), (0, 1, 2, 3), init_oracle(f.eta_grid, o['constants']))}
     if which == 'flux':
         f.setLayout('flux_surface')
         o['flux'].gridStep(f)
@@ -296,6 +315,20 @@ def op_body(npts, forced, iota, which, start):
         dt = 2.0 * dz / (abs(eta[3][1]) * bz)
         f.setLayout('flux_surface')
         adv = FluxSurfaceAdvection(eta, f.get2DSpline(), f.getLayout('flux_surface'), dt, c)
+        adv.gridStep(f)
+    elif which == 'flux_partly_aligned':
+        # rotational transform that vanishes on the inner half of the radial domain: there b_z = 1 and the feet of the characteristics fall
+        # exactly on grid points (0/0 branch of the barycentric formula); on the outer half b_z < 1 and they do not.  Which radii share a
+        # block depends on the process grid
+        from pygyro.advection.advection import FluxSurfaceAdvection
+        c = o['constants']
+        eta = f.eta_grid
+        rcut = 0.5 * (eta[0][len(eta[0]) // 2 - 1] + eta[0][len(eta[0]) // 2])
+        val = float(c.iotaVal)
+        c.iota = lambda r=c.rp: np.where(np.asarray(r, dtype=float) < rcut, 0.0, val) * np.ones_like(r, dtype=float)
+        assert float(eta[2][2] - eta[2][1]) == 1.0 and all(float(v) == round(float(v)) for v in eta[3]), 'harness: the set-up is not aligned'
+        f.setLayout('flux_surface')
+        adv = FluxSurfaceAdvection(eta, f.get2DSpline(), f.getLayout('flux_surface'), 1.0, c)
         adv.gridStep(f)
     elif which == 'vpar':
         f.setLayout('v_parallel')
@@ -405,7 +438,8 @@ def part_operators(chk, stats):
     npts = (6, 8, 8, 9)
     grids = chk.n([(2, 1), (1, 2), (2, 2), (3, 2)], [(2, 1), (1, 2), (2, 2), (3, 2), (3, 1), (1, 3), (2, 3), (2, 4), (6, 1), (3, 3)])
     for which, start, iotas in (('init', 'flux_surface', [0.8]), ('init', 'poloidal', [0.8]), ('init', 'v_parallel', [0.8]),
-                                ('flux', 'flux_surface', [0.0, 0.8]), ('flux_tuned', 'flux_surface', [0.8]), ('vpar', 'v_parallel', [0.8]), ('vpar_seq', 'v_parallel', [0.8]), ('pol', 'poloidal', [0.8]), ('pol_seq', 'poloidal', [0.8]), ('pol_two', 'poloidal', [0.8]), ('qn', 'v_parallel', [0.8])):
+                                ('init_prof', 'flux_surface', [0.8]), ('init_prof', 'poloidal', [0.8]), ('init_prof', 'v_parallel', [0.8]),
+                                ('flux', 'flux_surface', [0.0, 0.8]), ('flux_tuned', 'flux_surface', [0.8]), ('flux_partly_aligned', 'flux_surface', [0.8]), ('vpar', 'v_parallel', [0.8]), ('vpar_seq', 'v_parallel', [0.8]), ('pol', 'poloidal', [0.8]), ('pol_seq', 'poloidal', [0.8]), ('pol_two', 'poloidal', [0.8]), ('qn', 'v_parallel', [0.8])):
         for iota in iotas:
             ref = lu.run_ranks(1, op_body, npts, (1, 1), iota, which, start)
             if not ref.ok:
@@ -415,6 +449,14 @@ def part_operators(chk, stats):
                     chk.fail('C05:serial-run', 'serial %s raised: %s' % (which, str(ref.first_error())[:200]), {'op': which})
                 continue
             refG = {k: assemble([v], npts) for k, v in ref.values()[0].items()}
+            if 'oracle' in refG:
+                # the initial distribution is the closed form of the constants, whatever the starting layout
+                orc = refG.pop('oracle')
+                d = float(np.max(np.abs(orc - refG['f'])))
+                if not d <= 1e-12 * float(np.max(np.abs(orc))):
+                    chk.fail('C05:initial-distribution', 'initial distribution (start layout %s) differs from f_eq(r,v)(1+eps*perturbation) of the '
+                             'constants by %.3e' % (start, d), {'operator': which, 'start_layout': start, 'npts': npts,
+                                                                'overrides': PROFILE_OVERRIDES if which == 'init_prof' else {}})
             # (1, 8): every process owns exactly one z plane in the layouts that distribute z over the second process axis
             for forced in (list(grids) + [(1, 8)] if which in ('qn', 'pol', 'vpar') else grids):
                 res = lu.run_ranks(forced[0] * forced[1], op_body, npts, forced, iota, which, start, policy='random', seed=chk.seed)
